@@ -35,8 +35,11 @@ def shape_lit(s):
 
 def shape_of(var):
     if isinstance(var, V.Array):
-        elem = VF.generate(var.item_decriptor)
-        return ("arr", shape_of(elem))
+        # every element of an array is generated from the same descriptor (append, set, decode): the second and third look like the first
+        shapes = [shape_of(VF.generate(var.item_decriptor)) for _ in range(3)]
+        if shapes[1] != shapes[0] or shapes[2] != shapes[0]:
+            return ("arr", ("item", "ELEMENTS-OF-ONE-ARRAY-DIFFER"))
+        return ("arr", shapes[0])
     if isinstance(var, V.List):
         return ("rec", [(k, shape_of(v)) for k, v in var.data.items()])
     return ("item", type(var).__name__)
@@ -101,10 +104,16 @@ def render(toks, rnd):
     return s + gap(rnd, False)
 
 
+ELEMENTS_DIFFER = []      # definitions whose arrays do not generate every element alike
+
+
 def observe(text):
     try:
         var = VF.generate(text)
-        return True, shape_of(var)
+        shp = shape_of(var)
+        if "ELEMENTS-OF-ONE-ARRAY-DIFFER" in repr(shp):
+            ELEMENTS_DIFFER.append(text)
+        return True, shp
     except RecursionError:
         raise
     except Exception:  # noqa: BLE001
@@ -200,6 +209,22 @@ def gen_cases(rnd, tier):
         lits.append(("doc_example", case_lit(render(tokens(a), rnd), a, 0)))
     for name, text in catalogue_texts():
         lits.append(("catalogue", case_lit(text, None, 0)))
+    # texts that differ only in the KIND of whitespace behind a comment - a line break ends the comment, a blank does not - are different
+    # definitions: the member behind the comment is a member, or part of the comment, or (on one line) the closing bracket is commented
+    # away.  Read one after the other in one process, in every order, each yields its own structure
+    for _ in range(6 if tier == "quick" else 40):
+        k = rnd.randint(2, 4)
+        items = rnd.sample(sorted(ITEMS), k)
+        j = rnd.randint(1, k - 1)
+        t1 = "\n".join(["< L"] + [f" < {it} >" + (" # note" if i == j - 1 else "") for i, it in enumerate(items)] + [">"])
+        t2 = t1.replace(" # note\n", " # note ", 1)
+        t3 = t1.replace("\n", " ")
+        a1 = ("list", None, [("item", it) for it in items])
+        a2 = ("list", None, [("item", it) for i, it in enumerate(items) if i != j])
+        trio = [(t1, a1, 0), (t2, a2, 0), (t3, None, 1)]
+        rnd.shuffle(trio)
+        for text, a, mut in trio + trio[:1]:
+            lits.append(("comment_alias", case_lit(text, a, mut)))
     # token adjacency through a comment only
     lits.append(("comment_glue", case_lit("< L#c\nNAME < SVID > < CEID > >", ("list", "NAME", [("item", "SVID"), ("item", "CEID")]), 0)))
     return lits
@@ -270,6 +295,9 @@ def run(tier, replay=None):
         return report.finish()
     rnd = common.rng("c19")
     lits = gen_cases(rnd, tier)
+    for text in ELEMENTS_DIFFER[:2]:
+        report.violation({"kind": "counterexample", "what": "the elements of one array are not generated alike: the first element of the open list has the documented structure, "
+                          "a later one (append, set, decode use the same descriptor again) has other keys", "definition": text, "broken_obligation": proof.get("broken")}, True, tag="elements")
     bad, stats = evaluate(lits, "c19")
     c16.decide_lits(report, "C19", lits, bad, stats, proof, SPEC_CODES, MODEL_CODES)
     listed = {e["id"]: e for e in common.known_findings("C19")}
